@@ -29,6 +29,8 @@ QUERIES = [
     ("X.merge(R, on='a', broadcast=True)", "broadcast-join"),
     ("X.merge(R, on='a', how='left', broadcast=True)[['c', 'e']]", "broadcast-join-left"),
     ("X.fillna(0).abs().rename(columns={'a': 'x'})", "chain"),
+    ("X.repartition(npartitions=2)", "repartition-fewer"),
+    ("(X + 1).repartition(npartitions=7)", "repartition-more"),
     ("X.a.to_frame()", "to_frame"),
     ("X.index", "index"),
     # operations whose tasks look at neighbouring partitions or at the partition's position: selecting afterwards is not
@@ -100,7 +102,7 @@ def _cfgs(tier):
             k = src.npart if src.cuts is None else len(src.cuts) - 1
             if "npartitions=7" in text:
                 k = 7
-            if "npartitions=2" in text:
+            if "npartitions=2" in text and "compute=False" not in text:
                 k = 2
             if tag in ("head-all", "tail"):
                 k = 1
